@@ -292,8 +292,8 @@ class Ctx:
         self.tier = tier
         self.seed = seed
         self.escalated = escalated
-        self.thorough = tier == "thorough" or escalated
-        self.scale = 20 if self.thorough else 1
+        self.thorough = tier == "thorough"
+        self.scale = 20 if self.thorough else (5 if escalated else 1)
         self.rng = random.Random(f"{prop}:{seed}")
         self.rec = Recorder(prop)
         self.workers = int(os.environ.get("VERIF_WORKERS", str(os.cpu_count() or 4)))
@@ -305,9 +305,13 @@ class Ctx:
         return Driver(name or ("drv_" + self.prop.lower()))
 
     def n(self, quick, thorough=None):
-        """case count for this tier"""
-        if self.thorough:
-            return thorough if thorough is not None else quick * 20
+        """case count for this tier: quick, thorough, or (quick tier escalated because a proof,
+        the generated constants or an anchored function changed) five times quick"""
+        t = thorough if thorough is not None else quick * 20
+        if self.tier == "thorough":
+            return t
+        if self.escalated:
+            return max(quick, min(t, quick * 5))
         return quick
 
     def sub_rng(self, label):
